@@ -144,6 +144,13 @@ def _heapify(I, args, kw):
     return VNone()
 
 
+def _log_noop(I, args, kw):
+    """logging.warning/info/error/debug: diagnostic output on the root logger, not part of any modelled state;
+    trusted not to raise (lazy %-formatting errors are swallowed by the logging module)"""
+    I.ver.note_assumption("logging.* calls are no-ops that never raise (diagnostics on stderr are not modelled)")
+    return VNone()
+
+
 def _timedelta(I, args, kw):
     """datetime.timedelta(days=, seconds=): a duration in seconds on the real line.  Datetimes are modelled as
     real numbers (UTC seconds); datetime - timedelta and datetime comparisons are then ordinary arithmetic."""
@@ -199,6 +206,12 @@ def _basename(I, args, kw):
     """os.path.basename: deterministic uninterpreted string function (no structural facts assumed)"""
     a = I.to_str(args[0]) if not isinstance(args[0], VStr) else args[0]
     return VStr(_str_uf("os_path_basename", 1)(a.e))
+
+
+def _dirname(I, args, kw):
+    """os.path.dirname: deterministic uninterpreted string function (no structural facts assumed)"""
+    a = I.to_str(args[0]) if not isinstance(args[0], VStr) else args[0]
+    return VStr(_str_uf("os_path_dirname", 1)(a.e))
 
 
 def _path_join(I, args, kw):
@@ -356,7 +369,7 @@ def _pathlib_path(I, args, kw):
     return _as_path_str(I, args[0])
 
 
-SPEC_FUNCS = {"env_get": _environ_get, "os_basename": _basename, "os_join": _path_join, "json_dumps": _json_dumps,
+SPEC_FUNCS = {"env_get": _environ_get, "os_basename": _basename, "os_dirname": _dirname, "os_join": _path_join, "json_dumps": _json_dumps,
               "open": _open}
 
 # ---------------------------------------------------------------- concurrent.futures (trusted model)
@@ -504,8 +517,11 @@ TABLE = {
     ("copy", "deepcopy"): _deepcopy,
     ("hashlib", "sha256"): _hashlib_new("sha256"),
     ("concurrent", "ThreadPoolExecutor"): _thread_pool_executor,
+    ("logging", "warning"): _log_noop, ("logging", "info"): _log_noop, ("logging", "error"): _log_noop,
+    ("logging", "debug"): _log_noop,
     ("os", "makedirs"): _may_raise_oserror("makedirs"),
     ("os.path", "basename"): _basename,
+    ("os.path", "dirname"): _dirname,
     ("os.path", "join"): _path_join,
     ("os.path", "exists"): _path_exists,
     ("os", "remove"): _os_remove,
